@@ -6,6 +6,7 @@
   raised kinds / delays / call durations / batch positions, and restarts anywhere.
 -/
 import Kopf.Model.C11_Errors
+import Kopf.Model.C11_Storage
 import Kopf.Lemmas.C11_Errors
 namespace Kopf.C11
 
@@ -1829,6 +1830,130 @@ example : ((attempts (run envD ⟨none, none, some 2, some 64⟩ 0 (fromScratch 
     (fun a => (a.retry, a.out.invoked, a.out.exc))) = [(0, true, .raised), (1, true, .retries)] := by decide
 -- the environment fold with nothing stale and nothing lost is `run` (hypothesis of the `_partial`s)
 example : runEnv envD ⟨none, none, some 3, some 1024⟩ 0 [fromScratch 0] (demoSteps.map Step.lift) =
+    run envD ⟨none, none, some 3, some 1024⟩ 0 (fromScratch 0) demoSteps := by decide
+
+/-! ## Where the record lives: several storages on one object (`MultiProgressStorage`, the default
+    `SmartProgressStorage`): the limits and the delay are enforced against the record the handler's last
+    attempt produced whatever an older release / a previous configuration left in a lower-priority place -/
+
+/-- "The first storage has precedence": the record of the first place that has one is returned whole;
+    what the places after it hold does not matter. -/
+theorem multi_fetch_first (pre : List (Option Stored)) (s : Stored) (rest : List (Option Stored))
+    (h : ∀ p ∈ pre, p = none) : multiFetch (pre ++ some s :: rest) = some s := by
+  induction pre with
+  | nil => rfl
+  | cons p pre ih =>
+    have hp : p = none := h p (List.mem_cons_self ..)
+    subst hp
+    simp only [List.cons_append, multiFetch]
+    exact ih (fun q hq => h q (List.mem_cons_of_mem _ hq))
+
+/-- Nothing anywhere: no record (the handler starts from scratch). -/
+theorem multi_fetch_none (ps : List (Option Stored)) (h : ∀ p ∈ ps, p = none) : multiFetch ps = none := by
+  induction ps with
+  | nil => rfl
+  | cons p ps ih =>
+    have hp : p = none := h p (List.mem_cons_self ..)
+    subst hp
+    simp only [multiFetch]
+    exact ih (fun q hq => h q (List.mem_cons_of_mem _ hq))
+
+/-- What a cycle stored is what the next cycle reads, when the first place is written to (annotations in
+    the default storage; any `MultiProgressStorage` of writing storages) — whatever the other places hold. -/
+theorem store_then_fetch (s : Stored) (p : Option Stored) (rest : List (Bool × Option Stored)) :
+    multiFetch (contents (multiStore s ((true, p) :: rest))) = some s := by
+  simp [multiStore, contents, multiFetch]
+
+/-- Record continuity across storages: with the record in the first (written) place, the whole history
+    read through `multiFetch` is the history `run` of the plain model — for ALL contents of the lower-priority
+    places (stale leftovers included), all steps and restarts. Every `_partial` theorem above
+    (`retries_bound_partial`, `delay_respected_partial`, `timeout_bound_partial`, …) therefore holds for it. -/
+theorem places_run_is_run (env : Env) (l : Limits) (steps : List Step) :
+    ∀ (now : Int) (r : Rec) (rest : List (Bool × Option Stored)),
+      runPlaces multiFetch env l now ((true, some (toStorage r)) :: rest) steps = run env l now r steps := by
+  induction steps with
+  | nil => intro now r rest; rfl
+  | cons s tl ih =>
+    intro now r rest
+    cases s with
+    | restart dn =>
+      simp only [runPlaces, run, roundtrip]
+      rw [ih]
+    | cycle dt wait x dur lag =>
+      have hr : readPlaces multiFetch ((true, some (toStorage r)) :: rest) (now + dt) = r := by
+        simp [readPlaces, contents, multiFetch, roundtrip]
+      simp only [runPlaces, run, hr]
+      split
+      · simp only [multiStore, if_true]
+        rw [ih]
+      · rw [ih]
+
+/-- The upgrade / reconfiguration in the middle of a retry series: the first place is still empty, the
+    record is where the previous configuration (or release) wrote it. The series goes on from that record:
+    it is read as a fallback, the first executed cycle writes the first place, and from then on the
+    leftover is never consulted again. -/
+theorem upgrade_run_is_run (env : Env) (l : Limits) (steps : List Step) :
+    ∀ (now : Int) (r : Rec) (w : Bool) (rest : List (Bool × Option Stored)),
+      runPlaces multiFetch env l now ((true, none) :: (w, some (toStorage r)) :: rest) steps = run env l now r steps := by
+  induction steps with
+  | nil => intro now r w rest; rfl
+  | cons s tl ih =>
+    intro now r w rest
+    cases s with
+    | restart dn =>
+      simp only [runPlaces, run, roundtrip]
+      rw [ih]
+    | cycle dt wait x dur lag =>
+      have hr : readPlaces multiFetch ((true, none) :: (w, some (toStorage r)) :: rest) (now + dt) = r := by
+        simp [readPlaces, contents, multiFetch, roundtrip]
+      simp only [runPlaces, run, hr]
+      split
+      · simp only [multiStore, if_true]
+        rw [places_run_is_run]
+      · rw [ih]
+
+/-- at most N invocations across an upgrade in the middle of the series (instance of `retries_bound_partial`
+    through `upgrade_run_is_run`) -/
+theorem upgrade_retries_bound_partial (env : Env) (l : Limits) (n : Int) (hn : l.retries = some n)
+    (now : Int) (r : Rec) (w : Bool) (rest : List (Bool × Option Stored)) (steps : List Step) :
+    (invocations (runPlaces multiFetch env l now ((true, none) :: (w, some (toStorage r)) :: rest) steps)).length
+      ≤ (n - r.retries).toNat := by
+  rw [upgrade_run_is_run]
+  exact retries_bound_partial env l n hn steps now r
+
+/-- NEGATION for the variant that combines the records of all places (later places overriding): retries = 2,
+    one attempt recorded by the previous configuration in the legacy place. As the code is, one more
+    invocation and the handler has failed for good; with `mergedFetch` the stale leftover shadows every
+    record written since: invoked in every cycle, always with retry 1, the delay of 64 ignored. -/
+theorem merged_fetch_exceeds_retries_witness :
+    ∃ (env : Env) (l : Limits) (r : Rec) (steps : List Step), l.retries = some 2 ∧
+      ((invocations (runPlaces multiFetch env l 0 [(true, none), (false, some (toStorage r))] steps)).map
+        (fun a => (a.time, a.retry))) = [(1, 1)] ∧
+      ((invocations (runPlaces mergedFetch env l 0 [(true, none), (false, some (toStorage r))] steps)).map
+        (fun a => (a.time, a.retry))) = [(1, 1), (2, 1), (3, 1), (4, 1)] :=
+  ⟨⟨.temporary, 60⟩, ⟨none, none, some 2, none⟩, ⟨-100, none, some (-40), 1, false, false⟩,
+    [.cycle 1 0 (.temporary (some 64)) 0 0, .cycle 1 0 (.temporary (some 64)) 0 0,
+     .cycle 1 0 (.temporary (some 64)) 0 0, .cycle 1 0 (.temporary (some 64)) 0 0], rfl, by decide, by decide⟩
+
+/-- … and the delay: no limits, the handler asked for 64; with `mergedFetch` the next cycle, 1 tick later,
+    invokes it again (the `delayed` of the leftover is long past). -/
+theorem merged_fetch_breaks_delay_witness :
+    ∃ (env : Env) (l : Limits) (r : Rec) (steps : List Step) (a b : Attempt),
+      attempts (runPlaces mergedFetch env l 0 [(true, none), (false, some (toStorage r))] steps) = [a, b] ∧
+      a.out.delay = some 64 ∧ a.out.final = false ∧ b.time = a.merged + 1 ∧ ¬ After a b ∧
+      (attempts (runPlaces multiFetch env l 0 [(true, none), (false, some (toStorage r))] steps)).length = 1 := by
+  refine ⟨⟨.temporary, 60⟩, ⟨none, none, none, none⟩, ⟨-100, none, some (-40), 1, false, false⟩,
+    [.cycle 1 0 (.temporary (some 64)) 0 0, .cycle 1 0 (.temporary (some 64)) 0 0], _, _, rfl, by decide, by decide,
+    by decide, ?_, by decide⟩
+  intro h
+  have := h.2.1 64 (by decide)
+  revert this; decide
+
+-- non-vacuity: a stale leftover in the second place (retries 1, long past `delayed`) under a fresh record
+example : multiFetch [none, some (toStorage ⟨0, none, some 5, 1, false, false⟩)] =
+    some (toStorage ⟨0, none, some 5, 1, false, false⟩) := by decide
+example : runPlaces multiFetch envD ⟨none, none, some 3, some 1024⟩ 0
+    [(true, some (toStorage (fromScratch 0))), (false, some (toStorage ⟨-100, none, some (-40), 1, false, false⟩))] demoSteps =
     run envD ⟨none, none, some 3, some 1024⟩ 0 (fromScratch 0) demoSteps := by decide
 
 end Kopf.C11
